@@ -1,0 +1,46 @@
+//go:build verif
+
+package ptracer
+
+import (
+	"syscall"
+
+	unix "golang.org/x/sys/unix"
+
+	"github.com/criyle/go-sandbox/runner"
+)
+
+// HandleVerif runs ptraceHandle.handle on a prepared state for the
+// verification harness (build tag verif only).
+func HandleVerif(h Handler, pgid int, execved bool, traced []int, pid int, ws unix.WaitStatus) (status runner.Status, exitStatus int, errStr string, finished bool, execvedAfter bool, tracedAfter []int) {
+	ph := newPtraceHandle(&Tracer{Handler: h}, pgid)
+	ph.execved = execved
+	for _, p := range traced {
+		ph.traced[p] = true
+	}
+	status, exitStatus, errStr, finished = ph.handle(pid, ws)
+	for p, v := range ph.traced {
+		if v {
+			tracedAfter = append(tracedAfter, p)
+		}
+	}
+	return status, exitStatus, errStr, finished, ph.execved, tracedAfter
+}
+
+// CheckUsageVerif exposes Tracer.checkUsage.
+func CheckUsageVerif(l runner.Limit, ru unix.Rusage) (int64, uint64, runner.Status) {
+	t := &Tracer{Limit: l}
+	a, b, c := t.checkUsage(ru)
+	return int64(a), uint64(b), c
+}
+
+// ClenVerif exposes clen.
+func ClenVerif(b []byte) int { return clen(b) }
+
+// VMReadStrVerif exposes vmReadStr.
+func VMReadStrVerif(pid int, addr uintptr, buff []byte) error { return vmReadStr(pid, addr, buff) }
+
+// NewContextVerif builds a trap context from a crafted register set.
+func NewContextVerif(pid int, regs syscall.PtraceRegs) *Context {
+	return &Context{Pid: pid, regs: regs}
+}
